@@ -333,7 +333,7 @@ def jobs(tier):
     seed = int(os.environ.get("VERIF_SEED", "0") or 0)
     js = [Job("selftest", job_selftest, dict(seed=seed), "selftest", 180)]
     for K in (1, 2, 3) + ((4, 5) if tier == "thorough" else ()):
-        js.append(Job(f"item-step/enc1/K{K}", job_item_step, dict(K=K, timeout_s=1500 if tier == "quick" else 3300), "feasible_packing", 1700 if tier == "quick" else 3500, weight=K))
+        js.append(Job(f"item-step/enc1/K{K}", job_item_step, dict(K=K, timeout_s=1500 if tier == "quick" else 3300), "feasible_packing", 1700 if tier == "quick" else 3500, weight=K, optional=True))
     for n in range(1, 4):
         for reps in P.compositions(n):
             js.append(Job(f"ctor-domain/reps{'-'.join(map(str, reps))}", job_ctor_domain, dict(reps=reps), "instance_domain", 600))
